@@ -142,6 +142,34 @@ def cases(tier, seed):
 
     out += c10.vfs_cases(random.Random(seed * 353868013 + 90009), 5 if tier == "quick" else 50, f"c09-{seed}")
     out += _vfsplit_cases(random.Random(seed * 353868013 + 90010), 14 if tier == "quick" else 200, f"c09-{seed}")
+    # flattenComponents over a NESTED composite X -> Y where Y is composed of two components in one master and, in the other,
+    # draws the first of them as its own contour (Y is "mixed" there): Y becomes contours in every master, X keeps ONE
+    # reference to Y in every master
+    rng4 = random.Random(seed * 353868013 + 90011)
+    P = absfont.PS
+    for k in range(8 if tier == "quick" else 80):
+        def sq(x, y, w, h):
+            return [[x * P, y * P, "line"], [(x + w) * P, y * P, "line"], [(x + w) * P, (y + h) * P, "line"], [x * P, (y + h) * P, "line"]]
+
+        masters = []
+        nm = 2 + k % 2
+        mixed_in = {1} if nm == 2 else ({1}, {0, 2}, {2})[k % 3]
+        for j in range(nm):
+            w1, w2 = 100 + 10 * j + rng4.randint(0, 4) * 2, 40 + 4 * j
+            a = {"cs": [sq(0, 0, w1, 20)], "comps": [], "anchors": [], "w": 300 * P, "h": 0, "u": [0x61]}
+            b = {"cs": [sq(10, 0, w2, w2)], "comps": [], "anchors": [], "w": 200 * P, "h": 0, "u": [0x62]}
+            c = {"cs": [sq(0, 0, 200 + 10 * j, 300)], "comps": [], "anchors": [], "w": 400 * P, "h": 0, "u": [0x63]}
+            off = [2 * rng4.randint(0, 20) * P, (60 + 2 * j) * P]
+            if j in mixed_in:
+                y = {"cs": [copy.deepcopy(a["cs"][0])], "comps": [{"b": "b", "m": [64, 0, 0, 64], "d": list(off)}], "anchors": [], "w": 300 * P, "h": 0, "u": []}
+            else:
+                y = {"cs": [], "comps": [{"b": "a", "m": [64, 0, 0, 64], "d": [0, 0]}, {"b": "b", "m": [64, 0, 0, 64], "d": list(off)}],
+                     "anchors": [], "w": 300 * P, "h": 0, "u": []}
+            x = {"cs": [], "comps": [{"b": "c", "m": [64, 0, 0, 64], "d": [0, 0]}, {"b": "y", "m": [64, 0, 0, 64], "d": [20 * P, (320 + 4 * j) * P]}],
+                 "anchors": [], "w": 400 * P, "h": 0, "u": [0x78]}
+            masters.append({"a": a, "b": b, "c": c, "y": y, "x": x})
+        out.append({"cid": f"c09-{seed}-fl{k}", "lib": rng4.choice(["ufoLib2", "defcon"]), "path": ["TTFs", "TTFsFromDS"][k % 2], "masters": masters,
+                    "sparse": None, "kwargs": {"flattenComponents": k % 4 != 3}, "skip": [], "post": None, "sparseUfo": False})
     return out
 
 
